@@ -33,13 +33,9 @@ def build(want_proofs=True):
     os.makedirs(os.path.join(LEAN, ".lake"), exist_ok=True)
     with open(os.path.join(LEAN, ".lake", "verif-build.lock"), "w") as lk:
         fcntl.flock(lk, fcntl.LOCK_EX)
-        try:
-            info = translate.main()
-            res["translate"] = {k: info[k] for k in ("expirationTicks", "periodTicks", "alloc", "channelTarget",
-                                                     "usageTarget", "sha256", "changed")}
-        except translate.TranslateError as e:
-            res["translate_error"] = str(e)
-            return res
+        info = translate.main()
+        res["translate"] = {k: info[k] for k in ("expirationTicks", "periodTicks", "alloc", "channelTarget",
+                                                 "usageTarget", "sha256", "changed", "errors")}
         p = subprocess.run(["lake", "build", "wormhole-driver", "wormhole-db-driver", "wormhole-reg-driver"], cwd=LEAN, stdout=subprocess.PIPE,
                            stderr=subprocess.STDOUT, timeout=3000)
         res["driver_ok"] = p.returncode == 0
@@ -387,10 +383,14 @@ def main():
 
     # (1) translate + build
     b = {"driver_ok": True, "proofs_ok": True, "log": "", "translate": {}} if a.no_build else build()
-    if "translate_error" in b:
-        path = write_replay(pid, "translator", {"broken": "translator", "error": b["translate_error"]})
-        violations.append((path, " no-failing-input-found"))
-    if not b["driver_ok"] and "translate_error" not in b:
+    # a source section the translator can no longer read un-ties the theorems that use it
+    SECTION_PROPS = {"alloc": {"C04"}, "tap": {"C12", "C13"}, "db": {"C19", "C20"}, "scripts": {"C19", "C20"}}
+    terr = {k: v for k, v in (b.get("translate") or {}).get("errors", {}).items() if pid in SECTION_PROPS.get(k, set())}
+    translator_broken = None
+    if terr:
+        translator_broken = {"broken": "translator: the source no longer has the shape harness/translate.py reads; the theorems of %s "
+                                       "that use these values are no longer tied to the code" % pid, "sections": terr}
+    if not b["driver_ok"]:
         log(b["log"][-3000:])
         print("ERROR: the model driver does not build"); sys.exit(2)
     cov["translator"] = b.get("translate")
@@ -583,6 +583,9 @@ def main():
 
     if proof_broken is not None and not violations:
         path = write_replay(pid, "proof", proof_broken)
+        violations.append((path, " no-failing-input-found"))
+    if translator_broken is not None and not violations:
+        path = write_replay(pid, "translator", translator_broken)
         violations.append((path, " no-failing-input-found"))
 
     evidence["violations"] = len(violations)
